@@ -248,6 +248,35 @@ def ended(trace):
     return [l.split(" ")[1] for l in trace if l.startswith("E ")]
 
 
+def _first_difference(a, b):
+    """where two (canonical key, observation summary) pairs of one history differ -- for the machinery-error message"""
+    out = []
+    for name, x, y in (("key", a[0], b[0]), ("observations", a[1], b[1])):
+        if x == y:
+            continue
+        try:
+            jx, jy = json.loads(x), json.loads(y)
+        except ValueError:
+            out.append((name, str(x)[:200], str(y)[:200]))
+            continue
+        def walk(u, v, path):
+            if type(u) != type(v) or not isinstance(u, (list, dict)):
+                if u != v:
+                    out.append((name + path, json.dumps(u)[:300], json.dumps(v)[:300]))
+                return
+            if isinstance(u, dict):
+                for k in sorted(set(u) | set(v)):
+                    walk(u.get(k), v.get(k), path + "/" + str(k))
+            else:
+                if len(u) != len(v):
+                    out.append((name + path, json.dumps(u)[:300], json.dumps(v)[:300]))
+                    return
+                for i, (p, q) in enumerate(zip(u, v)):
+                    walk(p, q, path + "/%d" % i)
+        walk(jx, jy, "")
+    return out[:4]
+
+
 # ---------------------------------------------------------------------------
 # explorer
 
@@ -376,7 +405,8 @@ class Explorer:
         res["outcomes"] = len(res["outcomes"])
         res["wall_s"] = time.time() - t0
         if res["nondet"] and not _real(res["violations"]):
-            raise MachineryError("nondeterministic replay for histories: %r" % res["nondet"][:3])
+            raise MachineryError("nondeterministic replay for histories: %r; first differences: %r"
+                                 % (res["nondet"][:3], res.get("nondet_detail", [])[:3]))
         return res
 
     def explore(self, world: World, alphabet, depth, check_mod, check_name="step_check", dedup=True,
@@ -436,6 +466,7 @@ class Explorer:
                 if hk in keys_at:
                     if keys_at[hk] != (key, ok):
                         res["nondet"].append(history)
+                        res.setdefault("nondet_detail", []).append(_first_difference(keys_at[hk], (key, ok)))
                     continue
                 keys_at[hk] = (key, ok)
                 res["outcomes"].add(json.dumps([summ[-1]["rc"], summ[-1]["ran"], summ[-1]["listing"]]))
@@ -468,5 +499,6 @@ class Explorer:
             # two executions of one history disagreed.  When the exploration also observed violations these are reported
             # (each is an observed behaviour of the subject, re-derivable with --replay; a subject that hangs or races is
             # the likeliest cause of the disagreement); only a disagreement without any violation is a machinery error.
-            raise MachineryError("nondeterministic replay for histories: %r" % res["nondet"][:3])
+            raise MachineryError("nondeterministic replay for histories: %r; first differences: %r"
+                                 % (res["nondet"][:3], res.get("nondet_detail", [])[:3]))
         return res
